@@ -48,7 +48,7 @@ def complexes():
 
 def byteses():
     return st.one_of(st.binary(max_size=12), st.sampled_from([b"", b"abc", b"\x00\xff\x80", b"\xe9", b"x" * 256,
-                                                             b"caf\xc3\xa9"])).map(lambda b: ["y", hexs(b)])
+                                                             b"caf\xc3\xa9", b"\xed\xa0\x80", b"a\xed\xb0\x80z", b"\xf4\x90\x80\x80"])).map(lambda b: ["y", hexs(b)])
 
 
 TEXT_EDGES = ["", "a", "abc", "x" * 255, "x" * 256, "\xe9", "caf\xe9", "€", "\U0001f600", "a\x00b",
